@@ -733,3 +733,19 @@ Example iso_stale_heap_refuted :
   iso_ex_out PQ [(1%nat, (-5)%Z)] <> (0, 0, sp_matrix f4_nbrs f4_w 3) /\
   nth 1 (nth 2 (snd (iso_ex_out PQ [(1%nat, (-5)%Z)])) []) (Some 0%Z) = None.
 Proof. split; [vm_compute; discriminate|vm_compute; reflexivity]. Qed.
+
+(* ------------------------------------------------------------------ the descriptor shape means "row owned" *)
+From TK Require Import Par_Region_Model Par_Region_Proof.
+(* every shared key a body inside the extracted footprint of iteration i may touch (read or write, outside critical
+   sections) lies in row i: the footprint hypothesis W k = row k, R k ∩ matrix = ∅ of iso_all_schedules *)
+Lemma iso_shape_row_owned : forall r, iso_shape r = true ->
+  forall i x, Ad (r_shared r) i x -> fst (snd x) = Z.of_nat i.
+Proof.
+  intros r Hs i x (a & Ha & _ & _ & _ & _ & Hsem & _).
+  unfold iso_shape in Hs. apply andb_true_iff in Hs. destruct Hs as [Hs _].
+  apply andb_true_iff in Hs. destruct Hs as [Hs _].
+  rewrite forallb_forall in Hs. specialize (Hs a Ha).
+  apply andb_true_iff in Hs. destruct Hs as [Hs _]. apply andb_true_iff in Hs. destruct Hs as [Hs _].
+  destruct (a_i a) as [c| |]; try discriminate. destruct c; try discriminate.
+  cbn in Hsem. rewrite Hsem. apply Z.add_0_r.
+Qed.
